@@ -202,6 +202,18 @@ class Ctx:
         res = {"file": props_file, "theorems": [], "assumptions": {}, "ok": False, "log": "", "bad_axioms": [],
                "forbidden": [], "failed_stage": None}
         self.proof = res
+        # one prover at a time in coq/: concurrent checks would race on Makefile/.Makefile.d and shared .vo files
+        import fcntl
+        lockf = open(os.path.join(COQDIR, ".prove.lock"), "w")
+        fcntl.flock(lockf, fcntl.LOCK_EX)
+        self._prove_lock = lockf
+        try:
+            return self._prove_locked(res, props_file, deps_targets, timeout)
+        finally:
+            fcntl.flock(lockf, fcntl.LOCK_UN); lockf.close()
+
+    def _prove_locked(self, res, props_file, deps_targets, timeout):
+        pid = self.pid
         rc, o, e = sh(["make", "-C", VERIF, "coq/Makefile"], timeout=300)
         if rc != 0:
             res["log"] = o + e; res["failed_stage"] = "coq_makefile"; return res
